@@ -172,20 +172,52 @@ def rule_empty(ctx):
         key = fn_key(fn)
         res.instance("%s : first reduction `%s`" % (key, reds[0].name))
         first = min(e.order for e in reds)
-        guards = []
-        for e in tr.events:
-            if e.kind != "ret" or e.order > first:
-                continue
-            v = as_term(e.val)
-            if v is None or not v.is_call("Err"):
-                continue
-            for g in e.guards:
-                for t in walk_terms(g[3]):
-                    if isinstance(t, Cmp) and t.cop == "==" and g[0] == "+" and any(any(w in a for w in COUNT_WORDS) for a in t.poly.atoms()) and t.poly.t.get((), 0) == 0:
-                        guards.append(t)
+
+        def empty_guards(tr_, before):
+            out_ = []
+            for e in tr_.events:
+                if e.kind not in ("ret", "iret") or e.order > before:
+                    continue
+                v = as_term(e.val)
+                if v is None or not v.is_call("Err"):
+                    continue
+                for g in e.guards:
+                    for t in walk_terms(g[3]):
+                        if isinstance(t, Cmp) and t.cop == "==" and g[0] == "+" and any(any(w in a for w in COUNT_WORDS) for a in t.poly.atoms()) and t.poly.t.get((), 0) == 0:
+                            out_.append(t)
+            # `if n == 0 { Err(..) } else { Ok(()) }` as the value of a helper, propagated by the caller's `?`
+            for e in tr_.events:
+                if e.kind != "call" or e.name != "Err" or e.order > before:
+                    continue
+                for g in e.guards:
+                    for t in walk_terms(g[3]):
+                        if isinstance(t, Cmp) and t.cop == "==" and g[0] == "+" and any(any(w in a for w in COUNT_WORDS) for a in t.poly.atoms()) and t.poly.t.get((), 0) == 0:
+                            ek = k(e.val)
+                            if any(x.kind == "try" and e.order < x.order <= before and ek in k(x.val) for x in tr_.events):
+                                out_.append(t)
+            return out_
+        guards = empty_guards(tr, first)
+        if not guards:
+            # the test may sit in a private helper called first (`ensure_samples(x)?`) ...
+            tr_i = Tracer(fn, inline=ctx.inliner()).run()
+            reds_i = [e for e in tr_i.events if e.kind == "call" and e.name in REDUCTIONS and e.recv is not None and any(p in k(e.recv) for p in params) and e.closure_depth == 0]
+            if reds_i:
+                guards = empty_guards(tr_i, min(e.order for e in reds_i))
+        if not guards:
+            # ... or in every caller, before the call (the dispatcher checks once for all methods)
+            callers = []
+            for g_ in cands:
+                if g_ is fn:
+                    continue
+                trg = Tracer(g_, inline=ctx.inliner(keep=(fn["d"]["name"],))).run()
+                sites_ = [e for e in trg.events if e.kind == "call" and e.name == fn["d"]["name"] and e.node.get("k") in ("Call", "MethodCall")]
+                for e in sites_:
+                    callers.append((g_, bool(empty_guards(trg, e.order))))
+            if callers and all(okc for _, okc in callers):
+                guards = ["checked by every caller: %s" % sorted(set(fn_key(g_) for g_, _ in callers))]
         if guards:
             res.ok()
-            res.sample({"fn": key, "guard": guards[0].key(), "before": reds[0].name})
+            res.sample({"fn": key, "guard": guards[0].key() if hasattr(guards[0], "key") else guards[0], "before": reds[0].name})
         else:
             res.violate("%s : no-empty-guard" % key, "no `sample count == 0 -> return Err(..)` test dominates the first reduction over the records (`%s`)" % reds[0].name, fn_loc(fn, reds[0].node["ln"]))
     return res.finish(4)
